@@ -1,9 +1,13 @@
 (* Props/C04.v — property C04 (name compression).  Only statements.
-   The clauses about the packer's compression map (transparency, never longer,
-   pointer validity) are carried by the correspondence check and its independent
-   wire reader until Proofs/CompressProofs.v lands (partial); the clauses below
-   are complete checks of the tables regenerated from zmsg.go on every run. *)
+   Table clauses (which RDATA names may be compressed) are complete checks of the
+   tables regenerated from zmsg.go on every run.  The clauses about the packer's
+   compression map are theorems about the packer model (Proofs/Compress*.v):
+   [laysn out p ls h e] says that reading out at offset p and following pointers
+   yields exactly the labels ls (raw octets, case preserved) with h pointer hops,
+   the contiguous encoding ending at e; [lays] forgets h and e. *)
 From Dns Require Import Model.Msg Spec.RfcSets Proofs.LayoutProofs Gen.Layouts.
+From Dns Require Import Spec.NameSpec Proofs.CompressProofs Proofs.CompressFieldsProofs Proofs.CompressMsgProofs.
+Open Scope list_scope.
 Open Scope N_scope.
 
 (* names inside RDATA are packed with compression only for the RFC 1035 types
@@ -12,6 +16,7 @@ Theorem rdata_names_compressed_only_for_rfc1035_types :
   forallb (fun L => negb (existsb (fun pf : pfield => compresses (snd pf)) (tl_pack L))
                     || existsb (String.eqb (tl_name L)) rfc1035_compressible) layouts = true.
 Proof. exact only_rfc1035_types_compress_rdata. Qed.
+Print Assumptions rdata_names_compressed_only_for_rfc1035_types.
 
 (* ... and every one of those types does compress all its RDATA names *)
 Theorem rfc1035_types_compress_their_names :
@@ -19,6 +24,7 @@ Theorem rfc1035_types_compress_their_names :
                     | Some L => forallb (fun pf : pfield => match snd pf with K_name c => c | _ => true end) (tl_pack L)
                     | None => false end) rfc1035_compressible = true.
 Proof. exact rfc1035_types_do_compress. Qed.
+Print Assumptions rfc1035_types_compress_their_names.
 
 (* compressed names are accepted on input for every type: every name field of
    every generated unpack() is read by the one name decoder that follows
@@ -26,3 +32,262 @@ Proof. exact rfc1035_types_do_compress. Qed.
 Theorem unpack_sides_read_the_same_fields :
   forallb (fun L => sides_agree (tl_pack L) (tl_unpack L)) layouts = true.
 Proof. exact pack_unpack_sides_agree. Qed.
+Print Assumptions unpack_sides_read_the_same_fields.
+
+(* ================= the compression map, name level ================= *)
+
+(* what the invariant says of one map entry: the key is the text of a non-root
+   name, the offset is below 16384 and inside the output, holds a label-length
+   octet (never a pointer), and the labels of the key are laid there *)
+Theorem compression_map_entries_are_laid_suffixes out cm k p :
+  cm_inv out cm -> In (k, p) cm ->
+  exists ls, parse_name k = Some ls /\ ls <> [] /\ p < max_compression_offset /\ p < lenN out /\
+             1 <= nthN out p 0 < 64 /\ lays out p ls.
+Proof. exact (cm_inv_entry out cm k p). Qed.
+Print Assumptions compression_map_entries_are_laid_suffixes.
+
+(* packDomainName only appends, and keeps the invariant (the empty text is not
+   a name: nothing is written for it) *)
+Theorem pack_name_extends s cap cp st st' :
+  st_inv st -> pack_name s cap cp st = Ok st' ->
+  (exists b, pn_out st' = pn_out st ++ b) /\ st_inv st'.
+Proof. exact (pack_name_extends s cap cp st st'). Qed.
+Print Assumptions pack_name_extends.
+
+(* the name is laid where it was packed with exactly the labels its text
+   denotes, whatever pointers were emitted; the library's decoder reads them
+   back, consuming exactly the emitted octets, when there are at most 126 labels *)
+Theorem pack_name_lays s cap cp st st' :
+  s <> [] -> st_inv st -> pack_name s cap cp st = Ok st' ->
+  exists ls, parse_name s = Some ls /\ lays (pn_out st') (lenN (pn_out st)) ls /\
+    ((length ls <= 126)%nat ->
+     unpack_name (pn_out st') (lenN (pn_out st)) = Ok (show_name ls, lenN (pn_out st'))).
+Proof. exact (pack_name_lays s cap cp st st'). Qed.
+Print Assumptions pack_name_lays.
+
+(* either no pointer is emitted, or the emitted octets are a prefix of the
+   labels followed by 0xC000+q where q is an earlier offset below 16384 that
+   holds a label octet and at which the remaining (non-empty) suffix is laid *)
+Theorem pack_name_pointer_valid s cap cp st st' :
+  s <> [] -> st_inv st -> pack_name s cap cp st = Ok st' ->
+  exists ls b, parse_name s = Some ls /\ pn_out st' = pn_out st ++ b /\
+    (b = wire_name ls \/
+     exists ls1 lsT q, ls = ls1 ++ lsT /\ lsT <> [] /\ b = wire_labels ls1 ++ u16 (q + 49152) /\
+       q < lenN (pn_out st) /\ q < max_compression_offset /\
+       1 <= nthN (pn_out st) q 0 < 64 /\ lays (pn_out st) q lsT).
+Proof. exact (pack_name_pointer_valid s cap cp st st'). Qed.
+Print Assumptions pack_name_pointer_valid.
+
+(* the emitted octets are never longer than the plain wire form, which is what
+   packing without a map gives; without the compress flag or without a map the
+   plain form is emitted *)
+Theorem pack_name_never_longer s cap cp st st' cap' :
+  s <> [] -> st_inv st -> pack_name s cap cp st = Ok st' -> 320 <= cap' ->
+  exists ls b, parse_name s = Some ls /\ pn_out st' = pn_out st ++ b /\
+    pack_name_plain s cap' = Ok (wire_name ls) /\ lenN b <= lenN (wire_name ls) /\
+    ((cp = false \/ pn_cm st = None) -> b = wire_name ls).
+Proof. exact (pack_name_never_longer s cap cp st st' cap'). Qed.
+Print Assumptions pack_name_never_longer.
+
+(* UnpackDomainName on a laid name: at most 126 hops are followed *)
+Theorem laid_name_decodes out p ls h e :
+  laysn out p ls h e -> wire_len ls <= 255 -> (h <= 126)%nat ->
+  unpack_name out p = Ok (show_name ls, e).
+Proof. exact (lays_unpack out p ls h e). Qed.
+Print Assumptions laid_name_decodes.
+
+(* ... and is refused beyond: decodable exactly when the hops are at most 126 *)
+Theorem laid_name_with_127_hops_is_rejected out p ls h e :
+  laysn out p ls h e -> wire_len ls <= 255 -> (126 < h)%nat ->
+  unpack_name out p = Err "pointers".
+Proof. exact (lays_unpack_too_many_hops out p ls h e). Qed.
+Print Assumptions laid_name_with_127_hops_is_rejected.
+
+(* every hop lands on a label, so a name has at most as many hops as labels *)
+Theorem laid_name_hops_at_most_labels out p ls h e :
+  laysn out p ls h e -> (h <= length ls)%nat.
+Proof. exact (fun H => proj1 (laysn_hops out p ls h e H)). Qed.
+Print Assumptions laid_name_hops_at_most_labels.
+
+(* FINDING: without the hop bound the decoding clause is false.  A valid name
+   of 127 labels laid behind 127 hops is rejected by UnpackDomainName, and
+   packDomainName lays such a name when all its suffixes were packed before. *)
+Theorem laid_name_decodes_without_hop_bound_refuted :
+  ~ (forall out p ls, lays out p ls -> valid_wire ls = true -> exists r, unpack_name out p = Ok r).
+Proof. exact lays_unpack_refuted. Qed.
+Print Assumptions laid_name_decodes_without_hop_bound_refuted.
+
+Theorem packed_127_label_name_is_undecodable_refuted :
+  match pack_all (map chain_name (seq 1 127)) {| pn_out := []; pn_cm := Some [] |} with
+  | Ok st =>
+    match pack_name (chain_name 127) 4096 true st with
+    | Ok st' =>
+      parse_name (chain_name 127) = Some chain_labels /\ valid_wire chain_labels = true /\
+      length chain_labels = 127%nat /\
+      unpack_name (pn_out st') (lenN (pn_out st)) = Err "pointers"
+    | _ => False
+    end
+  | _ => False
+  end.
+Proof. exact pack_name_undecodable_127. Qed.
+Print Assumptions packed_127_label_name_is_undecodable_refuted.
+
+(* every pointer met while reading a laid name (reach: the positions visited,
+   with the labels still to come) targets an earlier offset below 16384 that
+   holds a label octet, where a non-empty suffix of the name is laid *)
+Theorem laid_pointers_valid out p ls p' ls' :
+  lays out p ls -> reach out p ls p' ls' -> 192 <= nthN out p' 0 ->
+  (nthN out p' 0 - 192) * 256 + nthN out (p' + 1) 0 < p' /\
+  (nthN out p' 0 - 192) * 256 + nthN out (p' + 1) 0 < max_compression_offset /\
+  1 <= nthN out ((nthN out p' 0 - 192) * 256 + nthN out (p' + 1) 0) 0 < 64 /\
+  ls' <> [] /\ lays out ((nthN out p' 0 - 192) * 256 + nthN out (p' + 1) 0) ls' /\
+  exists pre, ls = pre ++ ls'.
+Proof. exact (laid_pointers_valid out p ls p' ls'). Qed.
+Print Assumptions laid_pointers_valid.
+
+(* non-vacuity: a run where the second name is compressed against the first *)
+Example name_level_hypotheses_satisfiable :
+  st_inv ex_st0 /\ ex_n2 <> [] /\
+  exists a b, pack_name ex_n1 100 true ex_st0 = Ok a /\ pack_name ex_n2 100 true a = Ok b /\ st_inv b.
+Proof. exact compress_example_inv. Qed.
+
+(* ================= the compression map, RDATA level ================= *)
+(* [fields_sites v l cap st]: offset and text of every non-empty name packed by
+   the field sequence l from state st; [fields_names v l]: the name texts of the
+   fields (K_name, K_names, and K_gateway when the gateway is a host name) *)
+Theorem pack_fields_lays v l cap st st' :
+  st_inv st -> pack_fields v l cap st = Ok st' ->
+  st_inv st' /\ (exists b, pn_out st' = pn_out st ++ b) /\
+  Forall (fun ps => exists ls, parse_name (snd ps) = Some ls /\ wire_len ls <= 255 /\
+                               lays (pn_out st') (fst ps) ls) (fields_sites v l cap st) /\
+  map snd (fields_sites v l cap st) = filter nonempty (fields_names v l).
+Proof. exact (pack_fields_lays v l cap st st'). Qed.
+Print Assumptions pack_fields_lays.
+
+(* a name field without the compress flag (by the table theorems above: every
+   RDATA name of a type outside the RFC 1035 set) is written in the plain wire
+   form even when a map is present *)
+Theorem unflagged_rdata_name_is_plain v f cap st st' :
+  st_inv st -> pack_field v f (K_name false) cap st = Ok st' -> as_s (vget v f) <> [] ->
+  exists ls, parse_name (as_s (vget v f)) = Some ls /\ pn_out st' = pn_out st ++ wire_name ls.
+Proof. exact (unflagged_rdata_name_is_plain v f cap st st'). Qed.
+Print Assumptions unflagged_rdata_name_is_plain.
+
+(* ================= the compression map, message level ================= *)
+(* [msg_sites m buflen]: offset and text of every non-empty name packed by
+   pack_msg_buf m buflen, in packing order (question names, owner names, names
+   in RDATA); [msg_names m]: the name texts of the message, read off the
+   message and the field layouts; [msg_cap m buflen]: the buffer size Pack uses
+   (at least Len(uncompressed)+1); [uncompressed m]: m with Compress off.
+
+   The hypothesis "the packed octets do not fill the buffer" excludes the
+   off == len(msg) early exit of packHeader, after which packRR patches
+   RDLENGTH into octets of the previous record.  It holds whenever Len() is an
+   upper bound of the packed length (cap >= Len+1); that bound is not proved
+   here, hence _partial. *)
+
+(* no name is forgotten and each is laid with its own labels *)
+Theorem message_names_are_laid_partial m buflen w u :
+  pack_msg_buf m buflen = Ok (w, u) -> lenN w < msg_cap m buflen ->
+  map snd (msg_sites m buflen) = filter nonempty (msg_names m) /\
+  Forall (fun ps => exists ls, parse_name (snd ps) = Some ls /\ wire_len ls <= 255 /\ lays w (fst ps) ls)
+         (msg_sites m buflen).
+Proof.
+  intros H Hlt. split; [|exact (msg_names_laid m buflen w u H Hlt)].
+  destruct (pack_msg_buf_st _ _ _ _ H) as [st [Hst ->]]. exact (msg_sites_texts m buflen st Hst Hlt).
+Qed.
+Print Assumptions message_names_are_laid_partial.
+
+(* full clause: packing with compression yields octets that decode to exactly
+   the same message as packing without.  Proved: with and without compression
+   the same names are packed in the same order, and each is laid in both
+   outputs with exactly the labels its text denotes (octet for octet, case
+   preserved).  Missing: the buffer-full case (see above), the statement at the
+   level of unpack_msg, and names of 127 labels (refuted below). *)
+Theorem compression_is_transparent_partial m buflen wc uc wu uu :
+  pack_msg_buf m buflen = Ok (wc, uc) -> pack_msg_buf (uncompressed m) buflen = Ok (wu, uu) ->
+  lenN wu < msg_cap m buflen ->
+  map snd (msg_sites m buflen) = filter nonempty (msg_names m) /\
+  Forall2 (fun sc su : N * bytes => snd sc = snd su /\
+             exists ls, parse_name (snd sc) = Some ls /\ wire_len ls <= 255 /\
+                        lays wc (fst sc) ls /\ lays wu (fst su) ls)
+          (msg_sites m buflen) (msg_sites (uncompressed m) buflen).
+Proof. exact (compression_is_transparent m buflen wc uc wu uu). Qed.
+Print Assumptions compression_is_transparent_partial.
+
+(* the library's decoder reads every packed name of at most 126 labels back *)
+Theorem message_names_decode_partial m buflen w u p s :
+  pack_msg_buf m buflen = Ok (w, u) -> lenN w < msg_cap m buflen ->
+  In (p, s) (msg_sites m buflen) ->
+  exists ls, parse_name s = Some ls /\ lays w p ls /\
+    ((length ls <= 126)%nat -> exists e, unpack_name w p = Ok (show_name ls, e)).
+Proof. exact (msg_names_decode m buflen w u p s). Qed.
+Print Assumptions message_names_decode_partial.
+
+(* the compressed form is never longer (no side condition) *)
+Theorem compressed_never_longer m buflen wc uc wu uu :
+  pack_msg_buf m buflen = Ok (wc, uc) -> pack_msg_buf (uncompressed m) buflen = Ok (wu, uu) ->
+  lenN wc <= lenN wu.
+Proof. exact (compressed_never_longer m buflen wc uc wu uu). Qed.
+Print Assumptions compressed_never_longer.
+
+(* every pointer met while reading a name of the packed message targets an
+   earlier offset below 16384 that holds a label octet, at which a non-empty
+   suffix of that name is laid.  Missing: the buffer-full case. *)
+Theorem pointers_target_earlier_suffixes_partial m buflen w u ps ls p' ls' :
+  pack_msg_buf m buflen = Ok (w, u) -> lenN w < msg_cap m buflen ->
+  In ps (msg_sites m buflen) -> parse_name (snd ps) = Some ls ->
+  reach w (fst ps) ls p' ls' -> 192 <= nthN w p' 0 ->
+  (nthN w p' 0 - 192) * 256 + nthN w (p' + 1) 0 < p' /\
+  (nthN w p' 0 - 192) * 256 + nthN w (p' + 1) 0 < max_compression_offset /\
+  1 <= nthN w ((nthN w p' 0 - 192) * 256 + nthN w (p' + 1) 0) 0 < 64 /\
+  ls' <> [] /\ lays w ((nthN w p' 0 - 192) * 256 + nthN w (p' + 1) 0) ls' /\
+  exists pre, ls = pre ++ ls'.
+Proof. exact (msg_pointers_target_earlier_suffixes m buflen w u ps ls p' ls'). Qed.
+Print Assumptions pointers_target_earlier_suffixes_partial.
+
+(* the map the packer ends with satisfies the invariant *)
+Theorem final_compression_map_invariant_partial m buflen st :
+  pack_msg_st m buflen = Ok st -> lenN (pn_out st) < msg_cap m buflen -> st_inv st.
+Proof. exact (msg_final_map_inv m buflen st). Qed.
+Print Assumptions final_compression_map_invariant_partial.
+
+(* FINDING at message level: Pack with compression of 128 A records owned by
+   a., a.a., ..., (a.)^127, (a.)^127 succeeds inside the buffer, every name is
+   valid, the last owner is laid with its 127 labels but behind 127 hops, and
+   the library's own Unpack fails on it *)
+Theorem compression_transparent_for_127_labels_refuted :
+  match pack_msg_buf chain_msg 0 return Prop with
+  | Ok (w, _) =>
+    lenN w < msg_cap chain_msg 0 /\
+    forallb (fun s => match parse_name s with Some ls => valid_wire ls | None => false end)
+            (msg_names chain_msg) = true /\
+    match rev (msg_sites chain_msg 0) return Prop with
+    | (p, s) :: _ => s = chain_name 127 /\ laysb 400 w p chain_labels = true /\
+                     unpack_name w p = Err "pointers"
+    | [] => False
+    end /\
+    match unpack_msg w return Prop with Ok (_, failed) => failed = true | _ => False end
+  | _ => False
+  end.
+Proof. exact chain_msg_witness. Qed.
+Print Assumptions compression_transparent_for_127_labels_refuted.
+
+(* non-vacuity: a message whose compressed and uncompressed packings satisfy
+   the hypotheses above, with four of its six names compressed *)
+Example message_level_hypotheses_satisfiable :
+  match pack_msg_buf ex_msg 0, pack_msg_buf (uncompressed ex_msg) 0 with
+  | Ok (wc, _), Ok (wu, _) =>
+    lenN wc = 92 /\ lenN wu = 143 /\ lenN wu < msg_cap ex_msg 0 /\
+    map fst (msg_sites ex_msg 0) = [12; 29; 41; 47; 69; 76] /\
+    map fst (msg_sites (uncompressed ex_msg) 0) = [12; 29; 52; 69; 94; 112] /\
+    map snd (msg_sites ex_msg 0) = msg_names ex_msg /\
+    forallb (fun ps => match parse_name (snd ps) with Some ls => laysb 9 wc (fst ps) ls | None => false end)
+            (msg_sites ex_msg 0) = true /\
+    forallb (fun ps => match parse_name (snd ps) with Some ls => laysb 9 wu (fst ps) ls | None => false end)
+            (msg_sites (uncompressed ex_msg) 0) = true /\
+    takeN 10 (dropN 47 wc) = 7 :: bytes_of_string "example" ++ [192; 20] /\
+    takeN 7 (dropN 69 wc) = 4 :: bytes_of_string "mail" ++ [192; 12]
+  | _, _ => False
+  end.
+Proof. exact msg_example. Qed.
